@@ -35,3 +35,31 @@ Example C07_example :
               (Some (fun c => negb (Nat.eqb c 0))) MTplus (0 : QN))
   = Some ([1#4] : list QN, [(0%nat, [1#4] : list QN); (1%nat, [1] : list QN)]).
 Proof. vm_compute. reflexivity. Qed.
+
+(* ---- the compound estimators: every training call leaves the wrapped module's vigilance as configured, for every
+        kernel, mode, epsilon and reset function (FusionART is a kernel of the BaseART machine: the theorems above
+        apply to its vector of channel vigilances) ---- *)
+From ART Require Import SimpleARTMAP DualVig Topo Wrap_rho.
+Theorem C07_simpleartmap_fit_restores :
+  forall (N : Num) (K : Kernel N) (s s' : sam (N:=N)) X y iters m eps,
+    sam_fit K s X y iters m eps = Some s' -> rho (A s') = rho (A s).
+Proof. exact @sam_fit_rho. Qed.
+Theorem C07_simpleartmap_partial_fit_restores :
+  forall (N : Num) (K : Kernel N) (s s' : sam (N:=N)) X y m eps,
+    sam_partial_fit K s X y m eps = Some s' -> rho (A s') = rho (A s).
+Proof. exact @sam_partial_fit_rho. Qed.
+Theorem C07_dualvigilance_fit_restores :
+  forall (N : Num) (K : Kernel N) (s s' : dv (N:=N)) X veto mode eps lb ls,
+    dv_fit K s X veto mode eps lb = Some (s', ls) -> rho (DB s') = rho (DB s).
+Proof. exact @dv_fit_rho. Qed.
+Theorem C07_dualvigilance_partial_fit_restores :
+  forall (N : Num) (K : Kernel N) (s s' : dv (N:=N)) X veto mode eps lb ls,
+    dv_partial_fit K s X veto mode eps lb = Some (s', ls) -> rho (DB s') = rho (DB s).
+Proof. exact @dv_partial_fit_rho. Qed.
+Theorem C07_topoart_fit_restores :
+  forall (N : Num) (K Klow : Kernel N) tau phi (s s' : topo (N:=N)) X veto mode eps ls,
+    topo_fit K Klow tau phi s X veto mode eps = Some (s', ls) -> rho (TB s') = rho (TB s).
+Proof. exact @topo_fit_rho. Qed.
+Print Assumptions C07_simpleartmap_fit_restores.
+Print Assumptions C07_dualvigilance_fit_restores.
+Print Assumptions C07_topoart_fit_restores.
